@@ -39,8 +39,9 @@ LEVEL_TEXT = {
            '(3) the real parsers return exactly what the machine reads. Holds for every message in the stated domain, unbounded in size and depth.',
     'C02': 'Deductive proof (Verus) on the real functions, woven in place: value decoder, both readers, parser state machine and both '
            'drive loops have NO precondition, so every callee precondition (Buf::get_*/advance, slice ranges, Vec::remove, arithmetic '
-           'overflow) is proved for every tag byte and every length; the drive loops terminate (decreases = bytes left). Kani '
-           'discharges the enum-table axioms and the two reader primitives Verus cannot reach.',
+           'overflow) is proved for every tag byte and every length; the drive loops terminate (decreases = bytes left); re-encoding what '
+           'was parsed is panic-free (state invariant `sizes`) and the recursive encoder is proved to terminate (structural decreases over '
+           'Vec / BTreeMap). Kani discharges the enum-table axioms and the two reader primitives Verus cannot reach.',
     'C03': 'Deductive proof that IppValue::to_tag equals the RFC 8010 tag table, IppValue::to_bytes equals the RFC-derived '
            'spec_val_enc for every value (sets with per-element tags, nested collections, all scalar layouts), the header encoder equals '
            'spec_header_enc, each attribute is framed as tag/name-length/name/value, and the attribute section is: operation tag, first '
@@ -52,10 +53,14 @@ LEVEL_TEXT = {
            'raw), and both drive loops return exactly m_run(bytes) — groups in wire order and the rest of the stream — for every '
            'well-formed attribute section of any size and nesting depth.',
     'C05': 'Both front ends are verified in place against textually identical contracts over the ghost stream (reader primitives, '
-           'parse_value, drive loop, parse_parts): a change on one side only fails that side\'s obligation; for well-formed input both are proved to return exactly m_run(bytes).',
+           'parse_value, drive loop, parse_parts, parse): each is proved to conform, on EVERY byte string (malformed ones included), to one '
+           'total function t_run (specs/verif_total.rs: parsed content + unread bytes | InvalidTag(byte) | InvalidCollection | I/O failure), '
+           'so the two agree; on well-formed input t_run is proved equal to the RFC machine of C04. A change on one side only fails that '
+           'side\'s obligation. The kind of an I/O failure is not tracked by Verus (Kani part of C07).',
     'C06': 'Deductive proof that every reader primitive consumes exactly its n bytes via read_exact and that the drive loops leave '
            'the stream exactly at scan_rest(input) — the RFC scan of header+attributes through the end tag — for both front ends; '
-           'parse_parts returns that reader.',
+           'parse_parts returns that reader; Kani proves on the real code that the payload handed back delivers exactly the unconsumed '
+           'bytes, unmodified, then end-of-stream (same-kind paths, every byte content, fragmenting source).',
     'C07': 'Same obligations read as: Ok implies the whole scanned section was available before end-of-data/fault; lemma '
            'lemma_scan_prefix_none (proved) shows no proper prefix of an accepted section is accepted; Kani proves the I/O error '
            'kind survives the conversion into the parse error.',
